@@ -6,6 +6,9 @@ CONSTANTS
   Hist = TRUE
   PopOnDelete = TRUE
   DupCheck = TRUE
+  Patience = 1
+  HandlerKills = TRUE
+  Profile = "free"
 INVARIANT TypeOK
 INVARIANT Ref_Table
 INVARIANT Ref_Reply
